@@ -1,4 +1,5 @@
 import AranyaV.Proofs.VM
+import AranyaV.Gen.VMPanicSites
 /-!
 # C25 — The VM never panics on any bytecode
 
@@ -22,6 +23,11 @@ namespace AranyaV.VM
 structure WFm (m : Machine) : Prop where
   len : m.progmem.length ≤ isizeMax
   fit : ∀ i ∈ m.progmem, i.operandsFit
+
+/-- The panic-site inventory (`tools/inventory/C25.json`: every panic-capable construct of the
+modelled Rust functions, with the `hostPanic` branch / guard lemma it maps to) matches the source:
+no construct without a disposition, none vanished. -/
+theorem panic_inventory_matches : Gen.VMPanicSites.inventoryOk = true := rfl
 
 /-- The current source has no `todo!()` for `Next`/`Last` … -/
 theorem nextLast_fixed : nextLastTodo = false := rfl
